@@ -313,8 +313,8 @@ Corollary quiescence_total g alpha beta real :
   Good g -> (mu g < QFUEL)%nat -> exists z, quiescence QFUEL g alpha beta real = Some z.
 Proof. apply quiescence_fuel. Qed.
 
-(* and on every board as soon as QFUEL is raised above the maximum of the potential (the
-   hypothesis is false for the present value 64; it becomes [vm_compute; lia] once QFUEL >= 129) *)
+(* and on every board as soon as QFUEL is raised above the maximum of the potential (see
+   qfuel_covers_all_boards below) *)
 Corollary quiescence_total_all g alpha beta real :
   (128 < QFUEL)%nat -> Good g -> exists z, quiescence QFUEL g alpha beta real = Some z.
 Proof. intros HQ Hg. apply quiescence_fuel; [assumption|]. pose proof (mu_bound g). lia. Qed.
@@ -408,10 +408,9 @@ Proof.
   unfold GAME_LENGTH_GUARD, STATE_STACK_CAP in *. lia.
 Qed.
 
-(* QFUEL = 64 covers exactly the boards with mu <= 63; since mu can be as large as 128, the
-   fuel that covers every board is 129 *)
-Example qfuel_value : QFUEL = 64%nat.
-Proof. reflexivity. Qed.
+(* mu can be as large as 128, so a fuel above 128 covers every board; the model's QFUEL is *)
+Example qfuel_covers_all_boards : (128 < QFUEL)%nat.
+Proof. vm_compute. repeat constructor. Qed.
 
 Print Assumptions mu_bound.
 Print Assumptions muZ_push.
